@@ -26,7 +26,7 @@ Theorem C02_dispatch_ok : ∀ J E ls s css w t srcs s' cs,
        dispatched s' = dispatched s ++ [(w, t)] ∧
        cs = ((λ p : ds * host, CTransmit p.1 p.2 h) <$> map_to_list srcs) ++ [CTask w t] ∧
        (∀ d src, srcs !! d = Some src → d ∈ ins J t ∧ (src, d) ∈ store s ∧ (src, d) ∉ purges s) ∧
-       (∀ d, d ∈ ins J t → d.1 ∈ finished s' ∧ ((h, d) ∈ store s' ∨ ∃ src, (d, src, h) ∈ xfers s') ∧ (h, d) ∉ purges s').
+       (∀ d, d ∈ ins J t → d ∈ published s' ∧ ((h, d) ∈ store s' ∨ ∃ src, (d, src, h) ∈ xfers s') ∧ (h, d) ∉ purges s').
 Proof.
   intros J E ls s css w t srcs s' cs Hwf Hr Hex.
   exact (dispatch_ok J E Hwf s w t srcs s' cs (reachable_inv J E Hwf ls s css Hr) Hex).
@@ -36,14 +36,15 @@ Qed.
 Theorem C02_held_task_inputs : ∀ J E ls s css w t h d,
   wf_job J → run J E (init J E) ls = Next (s, css) →
   wq s !! w = Some t → e_host E !! w = Some h → d ∈ ins J t →
-  d.1 ∈ finished s ∧ ((h, d) ∈ store s ∨ ∃ src, (d, src, h) ∈ xfers s) ∧ (h, d) ∉ purges s.
+  d ∈ published s ∧ ((h, d) ∈ store s ∨ ∃ src, (d, src, h) ∈ xfers s) ∧ (h, d) ∉ purges s.
 Proof.
   intros J E ls s css w t h d Hwf Hr. apply (held_task_inputs J E Hwf), (reachable_inv J E Hwf ls s css Hr).
 Qed.
 
-(* the task body runs only with every input in the host's shared memory *)
-Theorem C02_start_needs_inputs : ∀ J E s w s' cs,
-  exec J E s (LFinish w) = Next (s', cs) →
+(* every publication step of the task body (a generator task publishes its outputs one by one) runs
+   only with every input in the host's shared memory *)
+Theorem C02_start_needs_inputs : ∀ J E s w i s' cs,
+  exec J E s (LPublish w i) = Next (s', cs) →
   ∃ t h, wq s !! w = Some t ∧ e_host E !! w = Some h ∧ ∀ d, d ∈ ins J t → (h, d) ∈ store s.
 Proof. exact start_needs_inputs. Qed.
 
